@@ -1,10 +1,12 @@
 import Pycoin.Model.Sec
 import Pycoin.Model.Base58
+import Pycoin.Model.Base58Hash
 import Pycoin.Model.NetworkDef
 /-!
 C10 — model of `pycoin/key/Key.py`: `Key.__init__` (range check on the secret exponent, on-curve check on the
 public pair), `Key.from_sec`, `Key.sec`, `Key.hash160`, `Key.address`
-(`AddressAPI.for_p2pkh`: `b2a_hashed_base58(address_prefix + h160)`).
+(`AddressAPI.for_p2pkh`: `address.b2a(address_prefix + h160)`, `b2a` = Base58Check under the network's checksum hash
+`Network.hashAddr`: double SHA-256, or Groestl on the Groestlcoin family).
 
 The generator of the key class is the parameter `c` (every network of `Gen/Networks.lean` uses secp256k1:
 `Props/C10.lean`, `C10_network_generator`); `bf` is the blinding factor the generator object drew at import.
@@ -71,6 +73,6 @@ def Key.address (net : Network) (k : Key) (isCompressed : Option Bool) : Except 
   | .ok h =>
     match net.addrP2pkh with
     | none => .ok none
-    | some pfx => (liftB58 (Base58.b2aHashed (pfx ++ h))).map some
+    | some pfx => (liftB58 (Base58.b2aHashedK net.hashAddr (pfx ++ h))).map some
 
 end Pycoin.KeyCtor
